@@ -267,6 +267,78 @@ def reset_globals():
         for d in dfl:
             if isinstance(d, set) and d:
                 d.clear()
+    _restore_class_state()
+
+
+_class_state = None
+
+
+def _snapshot_class_state():
+    """Every mutable container (set / dict / list) that is a class attribute or a module global of a bespokeasm module, and every
+    memoised function (anything with cache_clear), as found right after import.  A fresh CLI process starts from exactly these."""
+    import copy
+    import importlib
+    import pkgutil
+    import bespokeasm
+    for info in pkgutil.walk_packages(bespokeasm.__path__, 'bespokeasm.'):
+        try:
+            importlib.import_module(info.name)
+        except Exception:
+            pass
+    conts, caches, nones = [], [], []
+    seen = set()
+    for name, mod in list(sys.modules.items()):
+        if not (name == 'bespokeasm' or name.startswith('bespokeasm.')) or mod is None:
+            continue
+        import enum
+        owners = [mod] + [v for v in vars(mod).values() if isinstance(v, type) and getattr(v, '__module__', '').startswith('bespokeasm')
+                          and not issubclass(v, enum.Enum)]
+        for owner in owners:
+            for attr, val in list(vars(owner).items()):
+                if attr.startswith('__') and attr.endswith('__'):
+                    continue
+                if isinstance(val, (staticmethod, classmethod)):
+                    val = val.__func__
+                if val is None and isinstance(owner, type):
+                    if (owner, attr) not in nones:
+                        nones.append((owner, attr))
+                    continue
+                if hasattr(val, 'cache_clear') and id(val) not in seen:
+                    seen.add(id(val))
+                    caches.append(val)
+                elif type(val) in (set, dict, list) and id(val) not in seen:
+                    seen.add(id(val))
+                    try:
+                        conts.append((val, copy.deepcopy(val)))
+                    except Exception:
+                        pass
+    return conts, caches, nones
+
+
+def _restore_class_state():
+    global _class_state
+    import copy
+    if _class_state is None:
+        _class_state = _snapshot_class_state()
+        return
+    conts, caches, nones = _class_state
+    for owner, attr in nones:
+        if vars(owner).get(attr, None) is not None:
+            setattr(owner, attr, None)
+    for live, snap in conts:
+        try:
+            same = (live == snap)
+        except Exception:
+            same = False
+        if not same:
+            fresh = copy.deepcopy(snap)
+            if isinstance(live, list):
+                live[:] = fresh
+            else:
+                live.clear()
+                live.update(fresh)
+    for fn in caches:
+        fn.cache_clear()
 
 
 def run_inproc(case: Case, timeout: float = 10.0, tracer=None) -> Outcome:
